@@ -1,6 +1,6 @@
 From Coq Require Import List NArith ZArith Bool Arith.
 Import ListNotations.
-From Stam Require Import Base.Sx Model.Offset Model.Store Model.Loader Model.Csv Spec.CsvSpec Proofs.Loader Proofs.StoreIds Proofs.StoreSets Proofs.Csv Proofs.CsvSet Proofs.CsvResolve Proofs.CsvStore Props.C15.
+From Stam Require Import Base.Sx Model.Offset Model.Store Model.Loader Model.Csv Spec.CsvSpec Proofs.Loader Proofs.StoreIds Proofs.StoreSets Proofs.Csv Proofs.CsvSet Proofs.CsvResolve Proofs.CsvStore Proofs.ValidateProtect Proofs.CsvReach Props.C15.
 Check (C15_split_join : forall l, (forall x, In x l -> has_semi x = false) -> l <> [] -> split (join_semi l) = l).
 Check (C15_column_shape : forall own l, own ++ push_all l = column_spec own l).
 Check (C15_kind_roundtrip : forall k, kind_of_str (kind_str k) = Ok k).
@@ -36,12 +36,16 @@ Check (C15_reresolve : forall ops h a r, Forall op_ok ops ->
     /\ map (leaf_desc (run ops)) lfs' = map (leaf_desc (run ops)) (a_leaves a)
     /\ refs_resolve (run ops) a ds).
 Check (C15_load_save : forall s f, Good s -> save s = Some f -> exists s', load f = LOk s' /\ content s' = content s).
-Check (C15_statement : forall ops, Forall op_ok ops -> ids_fit (run ops) -> hyps_ok (run ops) = true ->
-  known_class (run ops) = 0 -> save (run ops) <> None ->
+Check (C15_hyps_ok : forall ops, Forall op_ok ops -> Forall kind_ok ops -> lens_fit (run ops) -> hyps_ok (run ops) = true).
+Check (C15_save_total : forall ops, Forall op_ok ops -> Forall kind_ok ops -> save (run ops) <> None).
+Check (C15_statement : forall ops, Forall op_ok ops -> Forall kind_ok ops ->
+  ids_fit (run ops) -> lens_fit (run ops) -> known_class (run ops) = 0 ->
   sx_of_loaded (roundtrip (run ops)) = roundtrip_spec (run ops)).
 Print Assumptions C15_split_join.
 Print Assumptions C15_load_save.
 Print Assumptions C15_statement.
+Print Assumptions C15_hyps_ok.
+Print Assumptions C15_save_total.
 Print Assumptions C15_reresolve.
 Print Assumptions C15_set_file_roundtrip.
 Print Assumptions C15_column_shape.
